@@ -82,7 +82,6 @@ func (osX) Stat(n string) (fs.FileInfo, error)                { return os.Stat(n
 func (osX) Lstat(n string) (fs.FileInfo, error)               { return os.Lstat(n) }
 func (osX) Remove(n string) error                             { return os.Remove(n) }
 func (osX) RemoveAll(n string) error                          { return os.RemoveAll(n) }
-func (osX) Rename(o, n string) error                          { return os.Rename(o, n) }
 func (osX) Link(o, n string) error                            { return os.Link(o, n) }
 func (osX) Symlink(o, n string) error                         { return os.Symlink(o, n) }
 func (osX) Readlink(n string) (string, error)                 { return os.Readlink(n) }
@@ -91,6 +90,22 @@ func (osX) Chown(n string, u, g int) error                    { return os.Chown(
 func (osX) Lchown(n string, u, g int) error                   { return os.Lchown(n, u, g) }
 func (osX) Chtimes(n string) error                            { return os.Chtimes(n, fsx.FixedTime, fsx.FixedTime) }
 func (osX) Truncate(n string, s int64) error                  { return os.Truncate(n, s) }
+
+// Rename of a name onto itself (the no-op argument dimension) asks the kernel:
+// os.Rename answers EEXIST from its own Lstat when the new name is a directory
+// and the two names are equal, without calling rename(2) - a decision of
+// package os, not of the kernel, which returns 0 for a name renamed onto itself.
+func (osX) Rename(o, n string) error {
+	if o != n {
+		return os.Rename(o, n)
+	}
+
+	if err := syscall.Rename(o, n); err != nil {
+		return &os.LinkError{Op: "rename", Old: o, New: n, Err: err}
+	}
+
+	return nil
+}
 
 // Chdir acts on the calling thread only: the worker thread has its own
 // fs_struct (unshare(CLONE_FS)); the caller goes back to "/" afterwards.
